@@ -13,6 +13,7 @@ RULES={
   ('KF-C01-TYPEOPERAND', r'is not an expression|is not a type|must be called|not an expression'),
   ('KF-C01-UNUSEDEXPR', r'is not used'),
   ('KF-C01-SHIFT', r'shift|shifted operand'),
+  ('KF-C01-LITKEYS', r'duplicate index|duplicate key|must not be negative'),
   ('KF-C01-SLICE', r'cannot slice|3-index slice|invalid slice ind|slice of unaddressable'),
   ('KF-C01-INDEX', r'index .* must be integer|invalid argument: index|cannot index|out of bounds'),
   ('KF-C01-CONSTREPR', r'overflows|truncated|constant .* overflow|cannot use .* constant|not representable|constant'),
